@@ -42,13 +42,35 @@ class Ctx:
         stopq = set(stop)
         cls = F.cls
 
+        wrappers = self.backup_wrappers()
+
         def inline(g):
             if g in stopset or g.qualname in stopq or g.is_ctor_call:
                 return False
+            if g in wrappers:
+                return True
             if g.cls == cls or g.cls in extra_classes:
                 return not g.is_public or g.cls != self.R.builder
             return False
         return self.E.super(F, inline, fault)
+
+    def backup_wrappers(self):
+        """Functions outside the builder that merely wrap the move-aside
+        primitive (``back_up_and_remove_if_file``): graphs rooted in the
+        builder look inside them."""
+        if 'backup_wrappers' not in self.memo:
+            from ..model import Func
+            bq = 'FileBackups.back_up_and_remove'
+            out = set()
+            for g in self.prog.funcs.values():
+                if g.cls == self.R.builder or g.qualname == bq:
+                    continue
+                if any(isinstance(h, Func) and h.qualname == bq
+                       for c in self.prog.calls_in(g)
+                       for h in self.prog.resolve_call(c, g)):
+                    out.add(g)
+            self.memo['backup_wrappers'] = out
+        return self.memo['backup_wrappers']
 
     def validate_anchors(self, pid):
         """Every function of the frozen anchor table that the rules refer to
